@@ -47,6 +47,10 @@ func c10System(c *sim.Case) {
 		// half of the deployments have another OIDC filter configured BEFORE this one, on the other kind of store
 		// (so that the two share nothing) and with limits of its own: none, an hour, or one second
 		o := sim.WorldOpts{Store: st, ViaServer: true, RealFactory: true, Binary: binary, Abs: abs, Idle: idle, CookiePrefix: fmt.Sprintf("w%d", wi)}
+		if binary {
+			// what the process logs (and the interceptors that log it) must not change what it answers
+			o.BinaryLogLevel = sim.PickStr(c, "binary.log", "error", "debug", "info", "trace")
+		}
 		if sim.Weighted(c, "neighbour", 1, 1) == 1 {
 			o.Neighbour = map[string]string{"memory": "redis", "redis": "memory"}[st]
 			switch sim.Pick(c, "neighbour.limits", 3) {
